@@ -90,6 +90,10 @@ pub struct Case {
     /// (bitrate, latency) of the ring channels, None = plain connections
     pub channel: Option<(usize, u64)>,
     pub stop: Stop,
+    /// a closed ring of this many gates (every gate a transit gate, spread over the modules), never used for
+    /// traffic, one hop with a channel that carries a probe; 0 = none
+    #[serde(default)]
+    pub gate_ring: usize,
 }
 
 thread_local! {
@@ -257,6 +261,20 @@ pub fn execute(case: &Case) -> Outcome {
             let ch = case.channel.map(|(bitrate, lat)| Channel::new(ChannelMetrics::new(bitrate, Duration::from_nanos(lat), Duration::ZERO, ChannelDropBehaviour::Queue(None))));
             a.connect(b, ch);
         }
+        if case.gate_ring >= 3 {
+            let k = case.gate_ring;
+            let gates: Vec<GateRef> = (0..k).map(|j| sim.gate(path_of(case, j % case.mods.len()).as_str(), &format!("r{j}"))).collect();
+            for j in 0..k {
+                let ch = if j == 1 {
+                    let ch = Channel::new(ChannelMetrics::new(1_000_000, Duration::from_nanos(MS), Duration::ZERO, ChannelDropBehaviour::Queue(None)));
+                    ch.attach_probe(Probe(Tracked::new("channel-probe-on-gate-ring")));
+                    Some(ch)
+                } else {
+                    None
+                };
+                gates[j].clone().connect(gates[(j + 1) % k].clone(), ch);
+            }
+        }
         if case.stop == Stop::BuilderDropped {
             what = "builder dropped".into();
             drop(sim);
@@ -331,6 +349,7 @@ pub fn followup() -> (Vec<(usize, u64, u16)>, tracked::Summary) {
         ],
         channel: Some((1_000_000, MS)),
         stop: Stop::Complete,
+        gate_ring: 0,
     };
     let o = execute(&case);
     (o.trace, tracked::summary())
@@ -430,7 +449,8 @@ pub fn gen_case(rng: &mut Rng, small: bool) -> Case {
         7..=8 => Stop::MaxTime(rng.below(40) * MS + rng.below(2) * 500_000),
         _ => Stop::Complete,
     };
-    Case { mods, channel, stop }
+    let gate_ring = if rng.chance(1, 5) { 3 + rng.usize_below(4) } else { 0 };
+    Case { mods, channel, stop, gate_ring }
 }
 
 fn case_hash(c: &Case) -> u64 {
@@ -495,6 +515,9 @@ pub fn cmd(args: &Args) -> Report {
             }
             if case.channel.is_some_and(|c| c.0 == 100_000) {
                 rep.count("models_with_channel_backlog", 1);
+            }
+            if case.gate_ring > 0 {
+                rep.count("models_with_closed_gate_ring", 1);
             }
             if findings.is_empty() && summary.created >= 5 {
                 rep.nontrivial(case_hash(&case));
